@@ -134,6 +134,13 @@ type OverrideInitUintLiteral struct {
 
 func (OverrideInitUintLiteral) overrideInitExpr() {}
 
+// OverrideInitIntLiteral represents an i32 literal (written with the i suffix) for override init.
+type OverrideInitIntLiteral struct {
+	Value int32
+}
+
+func (OverrideInitIntLiteral) overrideInitExpr() {}
+
 // EntryPoint represents a shader entry point.
 // The Function is stored inline (not via FunctionHandle) because Rust naga
 // keeps entry-point functions separate from Module.functions[].
